@@ -105,4 +105,58 @@ theorem parseUint64_nondigit (cs : List Char) (c : Char) (hc : c ∈ cs) (hnd : 
     cases this
   · simp [h2]
 
+theorem decodeInt_formatInt_eq (bits : Nat) (hb : 1 ≤ bits ∧ bits ≤ 64) (n : Int) :
+    decodeInt bits (formatInt n) =
+      if -(2 ^ (bits - 1) : Int) ≤ n ∧ n ≤ (2 ^ (bits - 1) : Int) - 1 then .ok n else .err "overflow" := by
+  unfold decodeInt
+  rw [formatInt_toList, parseInt64_intChars]
+  have hpow : (2 : Int) ^ (bits - 1) ≤ 2 ^ 63 := by
+    have : (2 : Nat) ^ (bits - 1) ≤ 2 ^ 63 := Nat.pow_le_pow_right (by omega) (by omega)
+    exact_mod_cast this
+  have hpos : (0 : Int) < 2 ^ (bits - 1) := Int.pow_pos (by decide)
+  by_cases h64 : n < minInt64 ∨ n > maxInt64
+  · have : ¬ (-(2 ^ (bits - 1) : Int) ≤ n ∧ n ≤ (2 ^ (bits - 1) : Int) - 1) := by
+      unfold minInt64 maxInt64 at h64; omega
+    rw [if_pos h64, if_neg this]
+  · rw [if_neg h64]
+    unfold overflowInt
+    by_cases hr : -(2 ^ (bits - 1) : Int) ≤ n ∧ n ≤ (2 ^ (bits - 1) : Int) - 1
+    · have : ¬ (n < -(2 ^ (bits - 1) : Int) ∨ n > (2 ^ (bits - 1) : Int) - 1) := by omega
+      rw [if_pos hr]
+      simp only [decide_eq_true_eq, this, if_false]
+    · have : (n < -(2 ^ (bits - 1) : Int) ∨ n > (2 ^ (bits - 1) : Int) - 1) := by omega
+      rw [if_neg hr]
+      simp only [decide_eq_true_eq, this, if_true]
+
+theorem decodeUint_formatInt_eq (bits : Nat) (hb : bits ≤ 64) (n : Int) :
+    decodeUint bits (formatInt n) =
+      if 0 ≤ n ∧ n < (2 ^ bits : Int) then .ok n.toNat else .err "overflow" := by
+  unfold decodeUint
+  rw [formatInt_toList, parseUint64_intChars]
+  have hpow : (2 : Int) ^ bits ≤ 2 ^ 64 := by
+    have : (2 : Nat) ^ bits ≤ 2 ^ 64 := Nat.pow_le_pow_right (by omega) hb
+    exact_mod_cast this
+  by_cases h64 : n < 0 ∨ n ≥ 2 ^ 64
+  · have : ¬ (0 ≤ n ∧ n < (2 ^ bits : Int)) := by omega
+    rw [if_pos h64, if_neg this]
+  · rw [if_neg h64]
+    unfold overflowUint
+    have hcast : ((n.toNat : Nat) : Int) = n := by omega
+    by_cases hr : 0 ≤ n ∧ n < (2 ^ bits : Int)
+    · have : ¬ (n.toNat ≥ 2 ^ bits) := by
+        intro h
+        have : ((2 ^ bits : Nat) : Int) ≤ (n.toNat : Int) := by exact_mod_cast h
+        rw [hcast] at this
+        have e : ((2 ^ bits : Nat) : Int) = (2 : Int) ^ bits := by norm_cast
+        omega
+      rw [if_pos hr]
+      simp only [decide_eq_true_eq, this, if_false]
+    · have : n.toNat ≥ 2 ^ bits := by
+        have h1 : (2 : Int) ^ bits ≤ n := by omega
+        have e : ((2 ^ bits : Nat) : Int) = (2 : Int) ^ bits := by norm_cast
+        have : ((2 ^ bits : Nat) : Int) ≤ (n.toNat : Int) := by rw [hcast, e]; exact h1
+        exact_mod_cast this
+      rw [if_neg hr]
+      simp only [decide_eq_true_eq, this, if_true]
+
 end GoatProofs.Lemmas.C10Int
